@@ -220,7 +220,7 @@ def check(case: Dict[str, Any]) -> CaseInfo:
     nontrivial = False
     with scratch_dir() as d:
         files = write_case(case, d)
-        ta = load_analysis(files, d, mp=case.get("mp", False))
+        ta = load_analysis(files, d, mp=case.get("mp", False), prelude=case.get("prelude"))
         from hta.common.trace_call_graph import CallGraph
 
         cg = hta_call("CallGraph", lambda: CallGraph(ta.t))
